@@ -29,6 +29,9 @@ def cmd_replay(path):
     elif doc.get('engine') == 'detcompile':
         from detcompile import check as D
         return D.replay(doc, path)
+    elif doc.get('engine') == 'genm3':
+        from . import genm3 as G
+        return G.replay(doc, path)
     else:
         binary = B.build(variant)
         K.IGNORE_UB[:] = [c for c in K.known_ub_classes(doc['property']) if c != doc['violation_class']]
